@@ -25,5 +25,22 @@ for meta_path in sorted(glob.glob("/verif/seeded/*/meta.json")):
     seed_rows.append("| `%s` | %s | %s | %s |" % (name, meta["property"], first[:230].replace("|", "/"), meta["caught_by"].replace("|", "/")))
 text = re.sub(r"(\| seeded change \(`seeded/<name>/`\) \| property \| what it needs to manifest \| caught by \|\n\|---\|---\|---\|---\|\n)(?:\|.*\n)*",
               lambda m: m.group(1) + "\n".join(seed_rows) + "\n", text)
+# section 5: one "as built" line per property, from the evidence of the last quick run
+updated = 0
+for evidence_path in sorted(glob.glob("/verif/evidence/C*.json")):
+    evidence = json.load(open(evidence_path))
+    if evidence.get("tier") != "quick":
+        continue
+    coverage = evidence["coverage"]
+    runs = coverage.get("tlc_runs", [])
+    line = ("* **As built (quick tier, last run):** %s distinct states / %s transitions over %d TLC run(s); %s behaviours replayed into "
+            "the code, %s recorded traces validated; %d s. TLC runs: %s." % (
+                coverage.get("states"), coverage.get("transitions"), len(runs), coverage.get("behaviours_replayed_into_code"),
+                coverage.get("recorded_traces_validated_by_tlc", 0), round(evidence.get("wall_s", 0)),
+                "; ".join("%s (%s states)" % (str(run.get("run", ""))[:70], run.get("distinct_states")) for run in runs)))
+    pattern = r"(### %s .*\n)\* \*\*As built \(quick tier, last run\):\*\*.*\n" % evidence["property_id"]
+    text, count = re.subn(pattern, lambda m: m.group(1) + line.replace("\\", "\\\\") + "\n", text)
+    updated += count
 open(path, "w").write(text)
+print(updated, "as-built lines;", end=" ")
 print(len(rows), "findings,", len(seed_rows), "seeded changes")
